@@ -380,6 +380,42 @@ theorem final_agree (k : Cfg) : ∀ (tr : Trace) (σ τ : State), CleanTrace k t
     exact final_agree k tr (stepState σ a) τ (fun x hx => hc x (by simp [hx])) (lazy_step k σ a hca hl)
       (agree_other k σ τ a hag hca hl)
 
+/-! ## lazy initialisation as load-or-publish (values only) -/
+
+/-- a nil-guarded lazy initialisation seen as what it does to values: load-or-publish of `v` -/
+def syncOf : Act → Act
+  | .lazyInit c v => .fillUse c v
+  | a => a
+
+theorem syncOf_state (σ : State) (a : Act) : stepState σ (syncOf a) = stepState σ a := by
+  cases a <;> rfl
+
+theorem syncOf_obs (σ : State) (a : Act) : stepObs σ (syncOf a) = stepObs σ a := by
+  cases a with
+  | lazyInit c v => simp [syncOf, stepObs, fillVal]
+  | _ => rfl
+
+def mapTrace (tr : Trace) : Trace := tr.map (fun x => (x.1, syncOf x.2))
+
+theorem readsOf_map (i : Nat) : ∀ (tr : Trace) (σ : State), readsOf i σ (mapTrace tr) = readsOf i σ tr
+  | [], _ => rfl
+  | (j, a) :: tr, σ => by
+    simp only [mapTrace, List.map_cons, readsOf, syncOf_state, syncOf_obs]
+    have ih := readsOf_map i tr (stepState σ a)
+    simp only [mapTrace] at ih
+    rw [ih]
+
+theorem solo_map : ∀ (as : List Act) (σ : State), solo σ (as.map syncOf) = solo σ as
+  | [], _ => rfl
+  | a :: as, σ => by simp only [List.map_cons, solo, syncOf_state, syncOf_obs, solo_map as]
+
+theorem proj_map (i : Nat) : ∀ tr : Trace, proj i (mapTrace tr) = (proj i tr).map syncOf
+  | [] => rfl
+  | (j, a) :: tr => by
+    have ih := proj_map i tr
+    simp only [mapTrace] at ih
+    by_cases h : j = i <;> simp [mapTrace, proj, h, ih]
+
 /-! ## reading the generated table -/
 
 inductive RowClass | cache | cacheLoad | inertCas | lazyDecl | lazyCtor | outParam | plain | unread | appendSpare | appendClipped
